@@ -28,6 +28,8 @@ from .common import CaseResult, case_rng, nice
 from . import packages as pk
 
 PID = 'C19'
+# a reader that never reaches the end of a truncated file must not stall the check: a case normally takes < 20 s
+CASE_TIMEOUT = 90
 RULE = ('cases = one fit output file each (kind fitter/direct, 1..4 records, stored predicted fluxes all/none/mixed, '
         'a share written by sedfitter.fit() itself from a data file, record sizes varied by keep() including records with zero kept fits at the first / a middle / the last position and '
         'consecutively); every case cuts its file at every offset (thorough); quick: every offset '
